@@ -141,8 +141,14 @@ def nested_rlp(depth):
     return inner
 
 
+BLOCK_COUNTS = [1, 2, 3, 255, 256, 257, 300]
+
+
 def blocks_and_brothers(r, advance, rng):
-    bl = reqs.blocks(rng, rng.randint(1, 2), advance, bro_counts=None if advance else None)
+    # how many blocks a well-formed request carries is a dimension of its own when the request is swept
+    # (the documents set no upper bound; 255 / 256 / 257 are where small-integer representations change)
+    n = rng.choice(BLOCK_COUNTS) if (isinstance(rng, Sweep) and r["blocks"] == "ok") else rng.randint(1, 2)
+    bl = reqs.blocks(rng, n, advance, bro_counts=[0] * n if (advance and n > 3) else None)
     raw = [b["raw"].hex() for b in bl]
     bros_ok = [[x["raw"].hex() for x in b["brothers"]] for b in bl] if advance else None
     out = {}
